@@ -164,6 +164,11 @@ func (r *dbRunner) step(s *dbStep) {
 		}
 		r.db.VerifWaitFlusherIdle()
 		s.Tables = tablesOf(r.db)
+	case "rotnw":
+		// a rotation that does not wait for the flusher: the next steps run while the flush is (or may be) under way
+		if err := r.db.VerifForceRotation(); err != nil {
+			s.Err = dbErrName(err)
+		}
 	case "compact":
 		s.Before = tablesOf(r.db)
 		done := make(chan struct{})
